@@ -192,3 +192,21 @@ def ret_spec(spec, *args, **kwargs):
     if spec == 'big':
         return make_bytes(1 << 20)
     return spec
+
+
+def echo2(a, b, escape=None):
+    """persistent target for C17: a is normally replaced by the enqueued value, b stays the default"""
+    if a == 'SLOW':
+        time.sleep(0.4)
+    elif a == 'POISON':
+        raise ValueError('poison item')
+    elif a == 'SWALLOW':
+        return swallow_everything(escape)
+    return ('r', a, b)
+
+
+def hold_until(path, value=None):
+    """cooperative: waits until the file exists, then returns"""
+    while not os.path.exists(path):
+        time.sleep(0.004)
+    return ('held', value)
